@@ -4,7 +4,7 @@ import itertools
 
 from .. import AnalysisError
 from ..absint import Evaluator, Unsupported, descriptor, DELETED, AStr
-from ..flow import show, walk_term
+from ..flow import show, walk_term, const
 from ..report import ob_ok, ob_fail, ob_undecided
 from .common import (is_call, method_call, node_attr, elem_of, strip_wrappers, guards_of,
                      enclosing_loops, need, callee_name)
@@ -186,7 +186,11 @@ def prov_weights(repo, tier="quick"):
         pop = args[0] if args else kw.get("population")
         w = kw.get("weights", args[1] if len(args) > 1 else None)
         k = kw.get("k", ("const", 1))
-        okp = pop == bonds
+        # the population: the parameter itself or a list made of it (the same elements in the same order)
+        def is_bonds(x):
+            c = is_call(x, "list", "tuple") if x else None
+            return x == bonds or bool(c and len(c[0]) == 1 and not c[1] and c[0][0] == bonds)
+        okp = is_bonds(pop)
         # X = [np.array]([probabilities.get(b, 0) for b in bonds])
         def is_X(x):
             c = is_call(x, "numpy.array", "numpy.asarray")
@@ -195,7 +199,7 @@ def prov_weights(repo, tier="quick"):
             if x and x[0] == "comp" and x[1] in ("list", "gen") and len(x[4]) == 1 and not x[4][0][2]:
                 elem = x[4][0][1]
                 e = elem_of(elem)
-                if e and e[0] == "elem" and e[1] == bonds:
+                if e and e[0] == "elem" and is_bonds(e[1]):
                     m = method_call(x[3], "get")
                     if m and m[0] == probs and len(m[2]) == 2 and m[2][0] == elem and m[2][1] in (("const", 0), ("const", 0.0)):
                         return True
@@ -619,6 +623,25 @@ def prov_sampler_setup(repo, tier="quick"):
             cands.append((t1, mn))
         named_ok = random_ok = False
         other = []
+        # `if not start_fragment: start_fragment = random.choice(...)` in front of one look-up: the parameter when it is
+        # given, the drawn name otherwise
+        for t, nid in list(cands):
+            k = t[2] if t[0] == "sub" and t[1] == fd else None
+            if not (k and k[0] == "var" and k[1] == "start_fragment" and len(k) == 3 and len(k[2]) == 2 and sf is not None):
+                continue
+            ds = [fl.defs[i] for i in k[2]]
+            pd = [d for d in ds if d.kind == "param"]
+            ad = [d for d in ds if d.kind == "assign" and d.value is not None and not d.path]
+            arm = fl._if_arm_of(ad[0]) if len(pd) == 1 and len(ad) == 1 else None
+            if not arm or not fi.cfg.dominates(arm[0].id, nid):
+                continue
+            tt = fl.canon(arm[0].ast.test, arm[0].id)
+            absent = (tt == ("unop", "not", sf) or (tt[0] == "cmp" and tt[1] == ("is",) and tt[2][0] == sf and tt[2][1] == const(None)))
+            present = tt == sf or (tt[0] == "cmp" and tt[1] == ("is not",) and tt[2][0] == sf and tt[2][1] == const(None))
+            if (absent and arm[1] == "T") or (present and arm[1] == "F"):
+                cands.remove((t, nid))
+                named_ok = True
+                cands.append((("sub", fd, fl.canon(ad[0].value, ad[0].node)), ad[0].node))
         for t, nid in cands:
             if t[0] == "sub" and t[1] == fd and sf is not None and t[2] == sf:
                 pols = [pol for test, pol, gid in _guards(fi, nid) if fl.canon(test, gid) == sf or
